@@ -75,8 +75,108 @@ class VLock:
         self.release()
 
 
+class VEvent:
+    """threading.Event for logical threads"""
+
+    def __init__(self):
+        self.flag = False
+
+    def is_set(self):
+        return self.flag
+    isSet = is_set
+
+    def set(self):
+        self.flag = True
+
+    def clear(self):
+        self.flag = False
+
+    @mark
+    async def wait(self, timeout=None):
+        if CUR['off']:
+            return self.flag
+        w = CUR['w']
+        if timeout is None:
+            while not self.flag:
+                await Tok('blocked', lambda: self.flag)
+        else:
+            dl = w.now + timeout
+            while not self.flag and w.now < dl:
+                await Tok('timed', (lambda: self.flag, dl))
+        return self.flag
+
+
+class VSemaphore:
+    """threading.Semaphore / BoundedSemaphore for logical threads"""
+
+    def __init__(self, value=1):
+        self.value = value
+
+    @mark
+    async def acquire(self, blocking=True, timeout=None):
+        if CUR['off']:
+            return True
+        w = CUR['w']
+        if self.value <= 0:
+            if not blocking:
+                return False
+            if timeout is not None:
+                dl = w.now + timeout
+                while self.value <= 0:
+                    if w.now >= dl:
+                        return False
+                    await Tok('timed', (lambda: self.value > 0, dl))
+            else:
+                while self.value <= 0:
+                    await Tok('blocked', lambda: self.value > 0)
+        self.value -= 1
+        return True
+
+    def release(self, n=1):
+        self.value += n
+
+    @mark
+    async def __enter__(self):
+        await self.acquire()
+        return self
+
+    def __exit__(self, *a):
+        self.release()
+
+
+def VRLock(*a, **k):
+    return VLock(None, True)
+
+
+class ThreadingModule:
+    """`import threading` inside a module loaded for Mode T: only the modelled primitives exist"""
+    Lock = VLock
+    RLock = staticmethod(VRLock)
+    Event = VEvent
+    Semaphore = BoundedSemaphore = VSemaphore
+
+    @staticmethod
+    def get_ident():
+        t = CUR['t']
+        return 1000 + (t.index if t is not None else 0)
+
+    @staticmethod
+    def current_thread():
+        return CUR['t']
+
+    def __getattr__(self, name):
+        raise ModelGap('threading.%s is not modelled' % name)
+
+
+MODE_T_REBIND = {'Lock': VLock, 'RLock': VRLock, 'Event': VEvent, 'Semaphore': VSemaphore, 'BoundedSemaphore': VSemaphore,
+                 'threading': ThreadingModule()}
+
+
 class KThreading:
     """stands in for the `threading` module inside the loaded repository module"""
+
+    Event = VEvent
+    Semaphore = BoundedSemaphore = VSemaphore
 
     def __init__(self, world):
         self.w = world
@@ -95,6 +195,12 @@ class KThreading:
     def get_ident(self):
         t = CUR['t']
         return 1000 + (t.index if t is not None else 0)
+
+    def current_thread(self):
+        return CUR['t']
+
+    def __getattr__(self, name):
+        raise ModelGap('threading.%s is not modelled' % name)
 
 
 class ModelGap(BaseException):
